@@ -19,6 +19,8 @@ R19.buf     no C++ exception can leave a PyBufferProcs callback; memcpy into a f
             an element-type test; numBytes() = product(shape) x itemsize; AtomicSize(T) x Width(T) = sizeof(T)
 R19.order2d FixedArray2D: a 1-D sequence walked by a running counter in a two-level nest addresses element (inner, outer)
 R19.str     StringTableT::_table is mutated only by insert inside intern, only when the string is absent
+R19.idx     (checks/c19ir.py, on the IR) canonical_index variants = Python index semantics on every cone of the (i, L) plane; getitem,
+            extract_slice_indices, and the element loops of getslice / setitem_scalar / setitem_vector address (start + k*step) * stride
 """
 import re, os
 from engine.report import HOLDS, VIOLATED, UNDECIDED
@@ -502,6 +504,9 @@ def main(rep, ws, tier):
     for name, fnc in RULES:
         counts[name] = fnc(fx, out)
     emit(rep, out)
+    from . import c19ir
+    nidx = c19ir.main_idx(rep, ws)
+    rep.floor('index-arithmetic obligations (IR)', nidx, 9)
     floors = {'acc': 2, 'wguard': 40, 'wprop': 15, 'inv': 3, 'tuple': 8, 'life': 3, 'buf': 20, 'str': 5, 'order2d': 3}
     for k, v in floors.items():
         rep.floor('R19.%s instances' % k, counts.get(k, 0), v)
